@@ -153,17 +153,25 @@ LedgerUsers(nd, s, s2) == {u \in Users : ~ReqTouched(s, s2, u) /\ ~PoolAct(nd.a,
 C07Ledger(nd, s, s2) ==
   \A u \in LedgerUsers(nd, s, s2) : \A d \in {"uaa", "ubb", "ucc"} :
      s2.bal[u][d] - s.bal[u][d] = C07OwnerFlow(s, s2, u, d)
-CancelAnte(nd, s) == LET a == nd.args IN
+(* "not in its placement batch" by the harness's OWN clock (st.og): at least one end-of-block with a due batch of the *)
+(* order's app has run since the order was placed - not by the module's batch counter, which stands still when a     *)
+(* whole batch is rolled back                                                                                        *)
+EbOf(j, o) == LET m == {x \in Range(j.og) : x.app = o.app /\ x.pair = o.pair /\ x.id = o.id} IN
+              IF m = {} THEN 0 ELSE (CHOOSE x \in m : TRUE).eb
+CancelAnte(nd, pj, s) == LET a == nd.args IN
   /\ nd.a = "CancelOrder" /\ a.app \in AppIds /\ HasOrder(s, a.app, a.pair, a.id)
-  /\ LET o == OrderOf(s, a.app, a.pair, a.id) IN Live(o) /\ o.owner = a.u /\ o.batch # PairOf(s, a.app, a.pair).batch
-C07Cancellable(nd, s, s2) == CancelAnte(nd, s) =>
+  /\ LET o == OrderOf(s, a.app, a.pair, a.id) IN Live(o) /\ o.owner = a.u /\ EbOf(pj, o) >= 1
+C07Cancellable(nd, pj, s, s2) == CancelAnte(nd, pj, s) =>
   LET a == nd.args IN nd.res.ok /\ HasOrder(s2, a.app, a.pair, a.id) /\ OrderOf(s2, a.app, a.pair, a.id).status = "X"
 EarlierMM(nd, s) == LET a == nd.args IN
   IF nd.a \in {"CancelMM", "MMOrder"} /\ nd.res.ok
   THEN {o \in s.orders : o.app = a.app /\ o.pair = a.pair /\ o.owner = a.u /\ o.typ = "MM" /\ Live(o)} ELSE {}
 C07MMReplace(nd, s, s2) ==
   \A o \in EarlierMM(nd, s) : HasOrder(s2, o.app, o.pair, o.id) /\ OrderOf(s2, o.app, o.pair, o.id).status = "X"
-C07CancelAll(nd, s, s2) == nd.a = "CancelAll" /\ nd.res.ok => C07CancelAllEnds(s, s2, nd.args)
+CancelAllTargetsG(pj, s, a) == {o \in s.orders : /\ o.app = a.app /\ o.owner = a.u /\ Live(o)
+                                                 /\ (a.pairs = <<>> \/ o.pair \in Range(a.pairs)) /\ EbOf(pj, o) >= 1}
+C07CancelAll(nd, pj, s, s2) == nd.a = "CancelAll" /\ nd.res.ok =>
+  \A o \in CancelAllTargetsG(pj, s, nd.args) : HasOrder(s2, o.app, o.pair, o.id) /\ OrderOf(s2, o.app, o.pair, o.id).status = "X"
 (* the escrow covers every live claim once the recorded matching residue (amm family) is accounted for: *)
 (* any OTHER leak out of a pair escrow violates this even in runs that hit the known non-conserving match *)
 C07CoversNet(nd, s2) ==
@@ -184,8 +192,8 @@ Holds(f, nd, pj, s, s2) ==
     [] f = "C04_ZeroSupplyDisabled" -> C04ZeroDisabled(s2)
     [] f = "C04_SupplyOnlyByPoolOps" -> (step => C04SupplyStep(s, s2))
     [] f = "C07_OwnerLedger" -> (step => C07Ledger(nd, s, s2))
-    [] f = "C07_Cancellable" -> (step => C07Cancellable(nd, s, s2))
-    [] f = "C07_CancelAll" -> (step => C07CancelAll(nd, s, s2))
+    [] f = "C07_Cancellable" -> (step => C07Cancellable(nd, pj, s, s2))
+    [] f = "C07_CancelAll" -> (step => C07CancelAll(nd, pj, s, s2))
     [] f = "C07_MMReplace" -> (step => C07MMReplace(nd, s, s2))
     [] f = "C07_EscrowCovers" -> C07EscrowCovers(s2)
     [] f = "C07_EscrowCoversNet" -> C07CoversNet(nd, s2)
@@ -202,7 +210,7 @@ IndexHole(s, a) == LET ids == MMXOf(s, a.app, a.pair, a.u).ids IN
   \E i \in DOMAIN ids : \E j \in DOMAIN ids : i < j /\ ~HasOrder(s, a.app, a.pair, ids[i])
                            /\ HasOrder(s, a.app, a.pair, ids[j]) /\ Live(OrderOf(s, a.app, a.pair, ids[j]))
 Flags(i) ==
-  LET nd == Nd(i) s == Pre(i) s2 == Post(i) step == nd.parent > 0 IN
+  LET nd == Nd(i) s == Pre(i) s2 == Post(i) pj == PreJ(i) step == nd.parent > 0 IN
   [ step |-> step, ok |-> step /\ nd.res.ok,
     placed |-> step /\ nd.a \in {"LimitOrder", "MarketOrder", "MMOrder"} /\ nd.res.ok,
     marketPlaced |-> step /\ nd.a = "MarketOrder" /\ nd.res.ok,
@@ -213,9 +221,23 @@ Flags(i) ==
     roundedUpPlaced |-> step /\ nd.a \in {"LimitOrder", "MarketOrder", "MMOrder"} /\ nd.res.ok /\ \E o \in s2.orders \ s.orders :
                           o.dir = "B" /\ (o.price * o.amt) % PS # 0,
     marketPartialEnd |-> step /\ \E o \in s2.orders : o.typ = "M" /\ ~Live(o) /\ o.rem > 0 /\ o.rem < o.offer /\ Was(s, o),
-    cancel |-> step /\ CancelAnte(nd, s),
-    cancelAll |-> step /\ nd.a = "CancelAll" /\ nd.res.ok /\ CancelAllTargets(s, nd.args) # {},
-    cancelAllMixed |-> step /\ nd.a = "CancelAll" /\ nd.res.ok /\ \E o \in CancelAllTargets(s, nd.args) :
+    cancel |-> step /\ CancelAnte(nd, pj, s),
+    foreignCoin |-> step /\ nd.a \in {"LimitOrder", "MarketOrder"} /\ "od" \in DOMAIN nd.args /\ HasPair(s, nd.args.app, nd.args.pair)
+                       /\ ~CoinsOfPair(nd.args, PairOf(s, nd.args.app, nd.args.pair))
+                       /\ \E v \in LiveOf(s, PairOf(s, nd.args.app, nd.args.pair)) : v.owner # nd.args.u /\ v.dir = nd.args.dir,
+    foreignOfferOnly |-> step /\ nd.a \in {"LimitOrder", "MarketOrder"} /\ "od" \in DOMAIN nd.args /\ HasPair(s, nd.args.app, nd.args.pair)
+                       /\ LET pr == PairOf(s, nd.args.app, nd.args.pair) IN
+                          nd.args.od \notin {pr.base, pr.quote} /\ nd.args.dd = (IF nd.args.dir = "B" THEN pr.base ELSE pr.quote)
+                          /\ \E v \in LiveOf(s, pr) : v.owner # nd.args.u /\ v.dir = nd.args.dir,
+    demandExceedsRest |-> step /\ nd.a = "EndBlock" /\ \E o \in s.orders : o.dir = "S" /\ o.status = "PM" /\ HasOrder(s2, o.app, o.pair, o.id)
+                       /\ OrderOf(s2, o.app, o.pair, o.id).status = "C"
+                       /\ \E b \in s2.orders : b.app = o.app /\ b.pair = o.pair /\ b.dir = "B" /\ Live(b) /\ HasOrder(s, b.app, b.pair, b.id)
+                                               /\ OrderOf(s, b.app, b.pair, b.id).recv < b.recv,
+    lowPriceFill |-> step /\ nd.a = "EndBlock" /\ \E p \in s2.pairs : p.lp > 0 /\ p.lp < 5000 /\ HasPair(s, p.app, p.id) /\ PairOf(s, p.app, p.id).lp > 0
+                       /\ PairOf(s, p.app, p.id).lp < p.lp
+                       /\ \E o \in s2.orders : o.app = p.app /\ o.pair = p.id /\ HasOrder(s, o.app, o.pair, o.id) /\ OrderOf(s, o.app, o.pair, o.id).recv < o.recv,
+    cancelAll |-> step /\ nd.a = "CancelAll" /\ nd.res.ok /\ CancelAllTargetsG(pj, s, nd.args) # {},
+    cancelAllMixed |-> step /\ nd.a = "CancelAll" /\ nd.res.ok /\ \E o \in CancelAllTargetsG(pj, s, nd.args) :
                           \E f \in s.orders : f.app = o.app /\ f.owner = o.owner /\ Live(f) /\ f.pair < o.pair /\ f.batch = PairOf(s, f.app, f.pair).batch
                                                 /\ (nd.args.pairs = <<>> \/ f.pair \in Range(nd.args.pairs)),
     mmImproved |-> step /\ nd.a = "EndBlock" /\ \E o \in s2.orders : o.typ = "MM" /\ o.status = "C" /\ o.rem > 0 /\ Was(s, o)
@@ -249,7 +271,7 @@ Flags(i) ==
     residue |-> nd.st.tainted ]
 FL == [i \in 1..NLog |-> Flags(i)]
 Cnt(f) == Cardinality({i \in 1..NLog : FL[i][f]})
-Stats == PrintT(<<"STATS", [k \in {"step", "ok", "placed", "marketPlaced", "marketBoundary", "feeStepPlaced", "roundedUpPlaced", "marketPartialEnd", "cancel", "cancelAll", "cancelAllMixed", "mmImproved", "mmIndexHole", "mm", "mmDiff", "mmPartial", "completed", "expired", "canceled", "partialEnd", "filled",
+Stats == PrintT(<<"STATS", [k \in {"step", "ok", "placed", "marketPlaced", "marketBoundary", "feeStepPlaced", "roundedUpPlaced", "marketPartialEnd", "cancel", "foreignCoin", "foreignOfferOnly", "demandExceedsRest", "lowPriceFill", "cancelAll", "cancelAllMixed", "mmImproved", "mmIndexHole", "mm", "mmDiff", "mmPartial", "completed", "expired", "canceled", "partialEnd", "filled",
                                    "emptied", "farmed", "activeFarm", "farmStaggered", "activeZeroedDiff", "farmTopUp", "farmTopUpDiff", "supply", "pending", "disabled", "zeroSupply", "activeUnfarm", "ledger", "residue"} |-> Cnt(k)]
                             @@ [nodes |-> NLog]>>)
 AllSeen == Stats /\ TLCGet("stats").distinct = NLog + NB + 1
